@@ -6,7 +6,9 @@ SPEC_MODE = "spec"
 KEEP_PREFIX = 1
 SIZES = {"quick": 4000, "thorough": 80000}
 BATCH = 4000
-RULE = ("op sequences over random (sampleCount, interval) geometries, 1-3 derived views (valid and invalid), events "
+RULE = ("op sequences over random (sampleCount, interval) geometries (one in eight the library default 20x10000 with a 2x1000 node), 1-3 derived "
+        "views (valid and invalid), BaseStatNodes with GenerateReadStat views (same interval as the default metric with other sample counts, "
+        "non-tiling requests, other intervals) read through base.ReadStat, events "
         "pass/block/complete/error/rt + concurrency samples, time steps from {0,1,L-1,L,L+1,view,n*L,>array}; start times incl. "
         "near zero; non-trivial = at least one slot reset happened (time crossed a full array cycle with an add after it) and "
         "at least one non-zero read; distinct by (geometry, views, op-kind sequence)")
@@ -18,79 +20,133 @@ def divisors(x):
     return [d for d in range(1, x + 1) if x % d == 0]
 
 
+def view_ok(sc, Iv, n, L):
+    I = n * L
+    return Iv != 0 and sc != 0 and Iv % sc == 0 and I % Iv == 0 and (Iv // sc) % L == 0
+
+
+def valid_view(rng, n, L):
+    """a view that tiles the array: Iv | I, Lv a multiple of L, sc = Iv / Lv"""
+    Iv = rng.choice([d * L for d in divisors(n)])
+    Lv = rng.choice([d * L for d in divisors(Iv // L)])
+    return Iv // Lv, Iv
+
+
+def any_view(rng, n, L):
+    I = n * L
+    return (rng.choice([0, 1, 2, 3, n, rng.randint(1, 5)]),
+            rng.choice([0, L, I, I + L, max(1, I // 2), rng.randint(1, 2 * I)]))
+
+
 def gen_case(rng, cid):
-    n = rng.choice([1, 1, 2, 2, 3, 4, 5, 6, 8, 10, 16, 20, 64]) if rng.random() < 0.9 else rng.randint(1, 40)
-    L = rng.choice([1, 2, 3, 7, 100, 250, 500, 1000, 1500])
+    # one geometry in eight is the library default: global 20 x 10000 ms (500 ms buckets), default metric 2 x 1000 ms
+    default_geo = rng.random() < 0.125
+    if default_geo:
+        n, L = 20, 500
+    else:
+        n = rng.choice([1, 1, 2, 2, 3, 4, 5, 6, 8, 10, 16, 20, 64]) if rng.random() < 0.9 else rng.randint(1, 40)
+        L = rng.choice([1, 2, 3, 7, 100, 250, 500, 1000, 1500])
     I = n * L
     t0 = rng.choice([1, 2, 7, max(1, L - 1), L, I, max(1, I - L - 1), I + 1, 10 ** 12, rng.randint(1, 3 * I + 5), rng.randint(1, 10 ** 6)])
     ops = [f"la.new {n} {I} {t0}"]
     views = []
+    if default_geo:
+        ops.append("view 2 1000")
+        views.append((2, 1000))
     for _ in range(rng.randint(1, 3)):
-        if rng.random() < 0.85:
-            # valid: Iv | I, Lv multiple of L, sc = Iv / Lv
-            ivs = [d * L for d in divisors(n)]
-            Iv = rng.choice(ivs)
-            lvs = [d * L for d in divisors(Iv // L)]
-            Lv = rng.choice(lvs)
-            sc = Iv // Lv
-        else:
-            Iv = rng.choice([0, L, I, I + L, max(1, I // 2), rng.randint(1, 2 * I)])
-            sc = rng.choice([0, 1, 2, 3, n, rng.randint(1, 5)])
+        sc, Iv = valid_view(rng, n, L) if rng.random() < 0.85 else any_view(rng, n, L)
         ops.append(f"view {sc} {Iv}")
-        ok = Iv != 0 and sc != 0 and Iv % sc == 0 and I % Iv == 0 and (Iv // sc) % L == 0
-        if ok:
+        if view_ok(sc, Iv, n, L):
             views.append((sc, Iv))
     if not views:
         ops.append(f"view 1 {I}")
         views.append((1, I))
-    nodes = []
-    def add_node():
-        sc, Iv = rng.choice(views)
+    nodes = []          # per node: list of readable views, [0] = the default metric
+
+    def add_ngen(k):
+        sc0, Iv0 = nodes[k][0]
+        r = rng.random()
+        if r < 0.5:
+            # same interval as the node's default metric, another sample count: valid ones (other tilings of Iv0) and
+            # invalid ones (not a divisor, buckets finer than the array's, zero)
+            per = Iv0 // L
+            sc = rng.choice([d for d in divisors(per)] + [sc0 + 1, 3, 4, 2 * per, 0, rng.randint(1, 6)])
+            Iv = Iv0
+        elif r < 0.8:
+            sc, Iv = valid_view(rng, n, L)
+        else:
+            sc, Iv = any_view(rng, n, L)
+        ops.append(f"ngen {k} {sc} {Iv}")
+        if view_ok(sc, Iv, n, L):
+            nodes[k].append((sc, Iv))
+
+    def add_node(first=False):
+        sc, Iv = (2, 1000) if (default_geo and first) else rng.choice(views)
         ops.append(f"node {sc} {Iv}")
-        nodes.append((sc, Iv))
-    if rng.random() < 0.6:
-        add_node()
+        nodes.append([(sc, Iv)])
+        if rng.random() < 0.7:
+            for _ in range(rng.randint(1, 2)):
+                add_ngen(len(nodes) - 1)
+    if default_geo or rng.random() < 0.6:
+        add_node(first=True)
     now = t0
     nops = rng.randint(10, 120)
+    # one case in five walks the clock bucket by bucket, so that consecutive slots (incl. the wrap-around) are all live
+    walk = rng.random() < 0.2
     for _ in range(nops):
         r = rng.random()
-        if r < 0.30:
+        if r < 0.28:
             sc, Iv = rng.choice(views)
-            d = rng.choice([0, 1, max(0, L - 1), L, L + 1, Iv // sc, Iv, I - 1, I, I + 1, 2 * I, 3 * I + 7, rng.randint(0, 2 * L)])
+            if walk:
+                d = rng.choice([L, L, L, L, max(0, L - 1), L + 1, 1, 0, 2 * L, Iv // sc])
+            else:
+                d = rng.choice([0, 1, max(0, L - 1), L, L + 1, Iv // sc, Iv, I - 1, I, I + 1, 2 * I, 3 * I + 7, rng.randint(0, 2 * L)])
             # land exactly on bucket / cycle boundaries sometimes
             if rng.random() < 0.2:
                 d = (L - now % L) % L + rng.choice([0, L, I])
             now += d
             ops.append(f"clock {now}")
-        elif r < 0.62:
+        elif r < 0.58:
             ev = rng.choice(EVS)
-            amt = rng.choice([1, 1, 2, 5, rng.randint(0, 100), 59999, 60000, 70000]) if ev == "rt" else rng.choice([0, 1, 1, 2, 3, rng.randint(1, 1000)])
+            amt = rng.choice([0, 1, 1, 2, 5, rng.randint(0, 100), 59999, 60000, 70000]) if ev == "rt" else rng.choice([0, 1, 1, 2, 3, rng.randint(1, 1000)])
             ops.append(f"add {ev} {amt}")
-        elif r < 0.68:
+        elif r < 0.63:
             ops.append(f"conc {rng.choice([0, 1, 2, 7, -1, rng.randint(0, 50)])}")
-        elif r < 0.70 and len(nodes) < 3 and rng.random() < 0.3:
+        elif r < 0.65 and len(nodes) < 3 and rng.random() < 0.3:
             add_node()
         elif r < 0.80 and nodes:
             k = rng.randrange(len(nodes))
-            g = rng.choice(["sum", "qps", "prevqps", "maxavg", "minrt", "maxconc", "avgrt", "avgrt"])
-            if g in ("sum", "qps", "prevqps", "maxavg"):
-                ops.append(f"nread {k} {g} {rng.choice(EVS)}")
+            q = rng.random()
+            if q < 0.40:
+                g = rng.choice(["sum", "qps", "prevqps", "maxavg", "minrt", "maxconc", "avgrt", "avgrt"])
+                if g in ("sum", "qps", "prevqps", "maxavg"):
+                    ops.append(f"nread {k} {g} {rng.choice(EVS)}")
+                else:
+                    ops.append(f"nread {k} {g}")
+            elif q < 0.52 and len(nodes[k]) < 5:
+                add_ngen(k)
             else:
-                ops.append(f"nread {k} {g}")
-        elif r < 0.93:
+                # through a ReadStat of the node: the default metric or (preferably) a generated one
+                v = rng.randrange(len(nodes[k])) if rng.random() < 0.3 else len(nodes[k]) - 1 - rng.randrange(min(2, len(nodes[k])))
+                g = rng.choice(["sum", "qps", "prevqps", "prevqps", "minrt", "avgrt"])
+                if g in ("sum", "qps", "prevqps"):
+                    ops.append(f"ngread {k} {v} {g} {rng.choice(EVS)}")
+                else:
+                    ops.append(f"ngread {k} {v} {g}")
+        elif r < 0.92:
             k = rng.randrange(len(views))
             g = rng.choice(["sum", "sum", "qps", "prevqps", "maxbucket", "minrt", "maxconc", "avgrt"])
             if g in ("sum", "qps", "prevqps", "maxbucket"):
                 ops.append(f"read {k} {g} {rng.choice(EVS)}")
             else:
                 ops.append(f"read {k} {g}")
-        elif r < 0.97:
+        elif r < 0.96:
             ops.append(f"count {rng.choice(EVS)}")
         else:
             lo = rng.choice([0, max(0, now - I), now - now % 1000 if now >= 1000 else 0])
             hi = rng.choice([now, now + I, 10 ** 13])
             ops.append(f"items {lo} {hi}")
-    return Case(cid, ops, tags=(f"n={n}", f"L={L}", f"t0={t0}"))
+    return Case(cid, ops, tags=(f"n={n}", f"L={L}", f"t0={t0}") + (("default-geo",) if default_geo else ()) + (("walk",) if walk else ()))
 
 
 def gen(ctx, n):
@@ -111,8 +167,15 @@ def densify(ops, rng):
     """insert reads of every kind after random ops (and small clock nudges): used by the failing-input search"""
     nviews = sum(1 for o in ops if o.startswith("view "))
     out = []
+    nnodes = 0
     for o in ops:
         out.append(o)
+        if o.startswith("node "):
+            nnodes += 1
+        if nnodes and rng.random() < 0.3:
+            k = rng.randrange(nnodes)
+            out.append(f"ngread {k} 0 {rng.choice(['sum', 'prevqps'])} {rng.choice(EVS)}")
+            out.append(f"nread {k} {rng.choice(['minrt', 'maxconc', 'avgrt'])}")
         if rng.random() < 0.5 and not o.startswith("la.new") and nviews:
             k = rng.randrange(nviews)
             for g in rng.sample(["sum", "prevqps", "maxbucket", "minrt", "maxconc", "count", "items"], 3):
@@ -145,17 +208,20 @@ def nontrivial(case, impl):
         elif r and r not in ("0", "ok", "[]", "f:0000000000000000") and not r.startswith("err"):
             nz = True
     if reset and nz:
-        kinds = "".join(o.split()[0][0] + (o.split()[2][0] if o.startswith("read") else "") for o in case.ops[1:])
+        kinds = "".join(o.split()[0][:2] + (o.split()[2][0] if o.startswith("read") else "") for o in case.ops[1:])
         return hash((n, I, tuple(o for o in case.ops if o.startswith("view")), kinds))
     return None
 
 
 META = {
     "technique": "Lean 4 proof (induction over histories, leap-array refinement invariant) + differential correspondence model/impl",
-    "level_text": ("Theorems in lean/Sentinel/Props/C08.lean, kernel-checked for every geometry, every monotone history and every read time: "
-                   "the code-shaped view read (deprecation test, start range, filter, sum) equals the filter-and-sum reference over the history for any "
-                   "commutative-monoid payload (counters, min RT, peak concurrency), incl. the previous-window read under Iv+Lv<=n*L, no recording is "
-                   "dropped, and CheckValidityForReuseStatistic is exactly the tiling condition. The model is tied to core/stat/base by running the "
+    "level_text": ("Theorems in lean/Sentinel/Props/C08.lean, kernel-checked for every geometry, every monotone history (recordings interleaved with "
+                   "the refreshes of array-level reads) and every read time: the code-shaped view read (deprecation test, start range, filter, sum) "
+                   "equals the filter-and-sum reference over the history for any commutative-monoid payload (counters, min RT, peak concurrency), "
+                   "incl. the previous-window read under Iv+Lv<=n*L; CountWithTime, GetMaxOfSingleBucket, the BaseStatNode getters and the per-second "
+                   "items (outside the known boundary region; inside it the exact one-bucket-longer window) equal their references; no recording is "
+                   "dropped, and CheckValidityForReuseStatistic is exactly the tiling condition. The model is tied to core/stat/base and "
+                   "stat.BaseStatNode (incl. GenerateReadStat / DefaultMetric views read through base.ReadStat) by running the "
                    "same op files through the real package (virtual clock) and the compiled Lean driver and comparing every observation; the spec "
                    "(reference over the history) is evaluated against the implementation directly, so a disagreement is reported with a shrunk replay."),
     "level_note": ("Trusted: Lean kernel; axioms propext/Classical.choice/Quot.sound; Go harness, virtual util.Clock, canonical printing (NaN sign dropped, "
